@@ -85,5 +85,18 @@ R11P == MixIri
 R11O == MixIri \cup {Bn("b1"), Bn("b2")} \cup MixLits
 R11G == {DG, Bn("g")} \cup Iris({"a/", "b#", ""}, {"n0", "n3", "x"})
 
+\* C18: statements that need more entries than an enabled table has slots
+I(p, n) == <<"iri", p, n>>
+C18Iri == Iris({"a/", "b#", "c/", "d#"}, {"x", "y"})
+C18IriG == C18Iri \cup {DG}
+C18Dt == {TypedLit("1", "d:a"), TypedLit("1", "d:b"), TypedLit("1", "d:c"), TypedLit("2", "d:d"), Bn("b1")}
+C18DtG == {TypedLit("1", "d:a"), TypedLit("1", "d:e"), DG}
+C18QtA == <<"qt", I("a/", "n0"), I("a/", "n1"), <<"qt", I("a/", "n2"), I("a/", "n3"), I("a/", "n4")>>>>
+C18QtB == <<"qt", I("a/", "n5"), I("a/", "n6"), <<"qt", I("a/", "n7"), I("a/", "n8"), I("a/", "n9")>>>>
+C18QtC == <<"qt", I("a/", "n0"), I("a/", "n5"), <<"qt", I("a/", "w"), I("a/", "x"), <<"qt", I("a/", "y"), I("a/", "z"), I("a/", "n1")>>>>>>
+C18NmS == {C18QtA, C18QtB, I("a/", "n0")}
+C18NmP == {I("a/", "w"), I("a/", "n0")}
+C18NmO == {C18QtA, C18QtB, C18QtC, I("a/", "x")}
+
 NsSmall == {<<"ex", "a/", "">>, <<"", "b#", "">>, <<"n", "", "x">>}
 =============================================================================
